@@ -352,7 +352,15 @@ fn gen_cb_op<P: Pad>(r: &mut RandomDir, w: &mut World<P>, kind: CbKind, me: u32)
         73..=77 => pick(rng, &roots).map(|o| json!({"e": "call", "op": "unwrap", "o": o})),
         78..=82 if cfg!(feature = "fin") => pick(rng, &roots).map(|o| json!({"e": "call", "op": "fagain", "o": o})),
         83..=90 if r.cfg.weak && w.nw > 0 => Some(json!({"e": "call", "op": "upgradef", "a": me, "k": "w", "i": rng.gen_range(1..=w.nw)})),
-        91..=94 => pick(rng, &roots).map(|o| json!({"e": "call", "op": "clone", "o": o})),
+        91..=92 => pick(rng, &roots).map(|o| json!({"e": "call", "op": "clone", "o": o})),
+        93..=94 => {
+            let cs = cleanable_ids(w);
+            if cs.is_empty() {
+                pick(rng, &roots).map(|o| json!({"e": "call", "op": "clone", "o": o}))
+            } else {
+                pick(rng, &cs).map(|c| json!({"e": "call", "op": "clean", "c": c}))
+            }
+        }
         95..=96 => {
             let (k, i) = slot(rng, w);
             pick(rng, &roots).map(|a| json!({"e": "call", "op": "clonef", "a": a, "k": k, "i": i}))
